@@ -6,9 +6,16 @@ CONSTANTS Sim, MaxC, MaxE
 VARIABLES h, done
 J == INSTANCE Ja3
 
-Ciphers == {47, 49195, 255, 2570, 64250, 4865, 49199}
-ExtTypes == {0, 10, 11, 23, 35, 4660, 2570, 60138, 65281, 16}
-Groups == {23, 24, 29, 2570, 43690}
+\* value pools: registered values, all 16 GREASE values (0x0a0a .. 0xfafa), and values that only look like
+\* GREASE (both low nibbles 0xa but different bytes: 0x1a2a, 0x0a1a, 0xfa0a, 0x0afa; neighbours 0x0a0b, 0x0a09)
+GreaseAll == { 2570 + 4112 * k : k \in 0..15 }
+NearGrease == {6698, 2586, 64010, 2810, 2571, 2569, 10794}
+Ciphers == {47, 49195, 255, 4865, 49199} \cup GreaseAll \cup NearGrease
+ExtTypes == {0, 10, 11, 23, 35, 4660, 65281, 16} \cup GreaseAll \cup NearGrease
+Groups == {23, 24, 29} \cup GreaseAll \cup NearGrease
+\* one value in four is drawn from the whole 16-bit range (extension types: from the unassigned range, so that the
+\* TLS stack does not try to parse a body)
+AnyOf(S, lo, hi) == IF RandomElement(1..4) = 1 THEN RandomElement(lo..hi) ELSE RandomElement(S)
 RECURSIVE SeqsUpTo(_, _)
 SeqsUpTo(S, n) == IF n = 0 THEN { <<>> } ELSE LET p == SeqsUpTo(S, n - 1) IN
                   p \cup { Append(s, x) : s \in { y \in p : Len(y) = n - 1 }, x \in S }
@@ -18,21 +25,23 @@ Has(e, t) == \E i \in 1..Len(e) : e[i] = t
 
 RECURSIVE RandSeq(_, _, _)
 RandSeq(S, n, salt) == IF n = 0 THEN <<>> ELSE <<RandomElement(S)>> \o RandSeq(S, n - 1, salt)
+RECURSIVE RandSeqAny(_, _, _, _, _)
+RandSeqAny(S, lo, hi, n, salt) == IF n = 0 THEN <<>> ELSE <<AnyOf(S, lo, hi)>> \o RandSeqAny(S, lo, hi, n - 1, salt)
 RandomHello(salt) ==
-  LET e0 == RandSeq(ExtTypes, RandomElement(0..MaxE), salt)
+  LET e0 == RandSeqAny(ExtTypes, 256, 65000, RandomElement(0..MaxE), salt)
       \* drop repeated occurrences of 0 / 10 / 11
       e == SelectSeq([i \in 1..Len(e0) |-> IF e0[i] \in {0, 10, 11} /\ \E j \in 1..(i - 1) : e0[j] = e0[i] THEN -1 ELSE e0[i]], LAMBDA x : x >= 0)
   IN [vers |-> RandomElement({768, 769, 770, 771}),
-      ciphers |-> RandSeq(Ciphers, RandomElement(1..MaxC), salt),
+      ciphers |-> RandSeqAny(Ciphers, 1, 65535, RandomElement(1..MaxC), salt),
       exts |-> e,
-      groups |-> IF Has(e, 10) THEN RandSeq(Groups, RandomElement(0..3), salt) ELSE <<>>,
+      groups |-> IF Has(e, 10) THEN RandSeqAny(Groups, 1, 65535, RandomElement(0..3), salt) ELSE <<>>,
       points |-> IF Has(e, 11) THEN RandSeq({0, 1, 2}, RandomElement(0..3), salt) ELSE <<>>,
       sni |-> IF Has(e, 0) THEN RandomElement({"a.example", "b.example"}) ELSE ""]
 
 Exhaustive == { [vers |-> v, ciphers |-> c, exts |-> e, groups |-> g, points |-> p, sni |-> IF Has(e, 0) THEN "a.example" ELSE ""] :
-                v \in {769, 771}, c \in SeqsUpTo({47, 49195, 2570, 64250}, 2) \ {<<>>},
-                e \in { x \in SeqsUpTo({0, 10, 11, 23, 2570}, 2) : ExtOK(x) },
-                g \in { <<>>, <<23>>, <<2570, 29>> }, p \in { <<>>, <<0>>, <<1, 0>> } }
+                v \in {769, 771}, c \in SeqsUpTo({47, 49195, 2570, 64250, 6698}, 2) \ {<<>>},
+                e \in { x \in SeqsUpTo({0, 10, 11, 23, 2570, 2586}, 2) : ExtOK(x) },
+                g \in { <<>>, <<23>>, <<2570, 29>>, <<64010, 29>> }, p \in { <<>>, <<0>>, <<1, 0>> } }
 Legal(x) == (Has(x.exts, 10) \/ x.groups = <<>>) /\ (Has(x.exts, 11) \/ x.points = <<>>)
 
 Init == h = [vers |-> 0, ciphers |-> <<>>, exts |-> <<>>, groups |-> <<>>, points |-> <<>>, sni |-> ""] /\ done = FALSE
